@@ -92,6 +92,9 @@ def _gen_cases(rng, tier):
 		('client', b'HTTP/1.1 200 OK\r\nContent-Encoding: deflate\r\nContent-Length: 5\r\n\r\nhelloHTTP/1.1 204 No Content\r\n\r\n'),
 		('client', b'HTTP/1.1 200 OK\r\nContent-Encoding: gzip\r\nTransfer-Encoding: chunked\r\n\r\n%x\r\n' % len(gz) + gz + b'\r\n0\r\n\r\nHTTP/1.1 204 No Content\r\n\r\n'),
 		('client', b'HTTP/1.1 200 OK\r\nTransfer-Encoding: chunked\r\nTrailer: X\r\n\r\n1\r\na\r\n0\r\nY: untold\r\n\r\n'),
+		('server', b'GET / HTTP/1.1\r\nHost: h\r\nConnection: Upgrade, HTTP2-Settings\r\nUpgrade: h2c\r\nHTTP2-Settings: Zm9v\r\nContent-Length: 2\r\n\r\nPOST / HTTP/1.1\r\nHost: h\r\nContent-Length: 1\r\n\r\nx'),
+		('server', b'GET ' + b'/a' * 600 + b' HTTP/1.1\r\nHost: h\r\n\r\n'),
+		('client-connect', b'HTTP/1.1 200 OK\r\nContent-Length: 3\r\nTransfer-Encoding: chunked\r\n\r\nHTTP/1.1 407 Auth\r\nContent-Length: 2\r\n\r\nabHTTP/1.1 200 OK\r\n\r\n'),
 	]
 	for kind, s in directed:
 		cases.append({'k': 'frag', 'kind': kind, 's': s.hex(), 'cuts': [[], list(range(1, len(s)))] + streams.single_cuts(s, None if tier == 'thorough' else 100)})
